@@ -59,6 +59,8 @@ type Exec struct {
 	kinds    map[string]int
 	refKey   map[string]bool
 	escMemo  map[*ssa.Alloc]bool
+	refined  map[string]bool
+	noImpl   []string
 	readLog  map[string]bool            // when non-nil: heap keys read (for opaque spec functions)
 	opReads  map[string][]string        // opaque func -> heap keys its body reads
 	opSyms   map[string]string          // opaque func + heap tuple -> UF symbol
@@ -761,6 +763,7 @@ func (x *Exec) step(st *State, ins ssa.Instruction) {
 		next()
 	case *ssa.MakeInterface:
 		x.setVal(st, ins, x.makeIface(st, x.val(st, ins.X), ins.X.Type(), ins.Type()))
+		x.refineAt(st, ins)
 		next()
 	case *ssa.TypeAssert:
 		x.stepTypeAssert(st, ins)
